@@ -52,6 +52,23 @@ class _CtxBase:
             obj, attr, old = self._patches.pop()
             setattr(obj, attr, old)
 
+    def suspended(self):
+        """context manager: this context's patches are lifted (the real code is visible) and re-applied after"""
+        ctx = self
+
+        class _S:
+            def __enter__(self_inner):
+                self_inner.saved = []
+                for obj, attr, old in reversed(ctx._patches):
+                    self_inner.saved.append((obj, attr, getattr(obj, attr)))
+                    setattr(obj, attr, old)
+
+            def __exit__(self_inner, *exc):
+                for obj, attr, cur in reversed(self_inner.saved):
+                    setattr(obj, attr, cur)
+                return False
+        return _S()
+
     def open_finding(self, fid):
         return (fid in self._open) and not self.ignore_findings
 
@@ -133,7 +150,8 @@ class SymCtx(_CtxBase):
                "inputs_float": {k: float(v) for k, v in values.items()},
                "detail": detail if detail is None else str(detail)}
         if self._replay is not None:
-            failed, cobs, outside, err = self._replay(values, self.eng.uf_table(model))
+            with self.suspended():
+                failed, cobs, outside, err = self._replay(values, self.eng.uf_table(model))
             rec["replay_failed_labels"] = failed
             rec["replay_outside_assumptions"] = outside
             rec["replay_error"] = err
@@ -157,7 +175,8 @@ class SymCtx(_CtxBase):
                "inputs_float": {k: float(v) for k, v in values.items()},
                "detail": "%s: %s" % (type(exc).__name__, exc),
                "trace": traceback.format_exc()[-2000:]}
-        failed, cobs, outside, err = self._replay(values, self.eng.uf_table(model))
+        with self.suspended():
+            failed, cobs, outside, err = self._replay(values, self.eng.uf_table(model))
         rec["replay_failed_labels"] = failed
         rec["replay_outside_assumptions"] = outside
         rec["replay_error"] = err
